@@ -26,9 +26,10 @@ type c05Case struct {
 	Mode      srvMode `json:"mode"`
 	Refuse    string  `json:"refuse"` // "", nomail, norcpt, badlast, threeargs, overlimit
 	LineLimit int     `json:"line_limit"`
-	Noop      bool    `json:"noop"`    // NOOP marker after every chunk
-	Huge      string  `json:"huge"`    // declared size of a BDAT whose octets can never all arrive (decimal string)
-	NoLast    string  `json:"no_last"` // "", QUIT, disconnect: no chunk carries LAST; the transfer is ended this way
+	Noop      bool    `json:"noop"`       // NOOP marker after every chunk
+	HugeAfter int     `json:"huge_after"` // a normal chunk of this many octets is accepted before the huge one (size limit 40)
+	Huge      string  `json:"huge"`       // declared size of a BDAT whose octets can never all arrive (decimal string)
+	NoLast    string  `json:"no_last"`    // "", QUIT, disconnect: no chunk carries LAST; the transfer is ended this way
 }
 
 func init() {
@@ -159,6 +160,14 @@ func c05Run(ctx *core.Ctx) {
 						idx++
 						emit(c05Case{Msg: []byte("RCPT TO:<bait-2@x.test>\r\nMAIL FROM:<bait-1@x.test>\r\n"), MsgQ: "bait", Chunks: []int{0}, Seg: []string{"glued", "split"}[idx%2], Mode: mode, Huge: hs, ExtraLast: last, LineLimit: lim})
 					}
+				}
+			}
+		}
+		for _, hs := range []string{"9223372036854775807", "9223372036854775800", "9223372036854775777", "4611686018427387904", "4294967296"} {
+			for _, after := range []int{1, 5, 30} {
+				for _, mode := range modes {
+					idx++
+					emit(c05Case{Msg: []byte(strings.Repeat("payload-beyond-the-limit ", 8)), MsgQ: "200 octets", Chunks: []int{0}, Seg: []string{"glued", "split"}[idx%2], Mode: mode, Huge: hs, HugeAfter: after, LineLimit: 64})
 				}
 			}
 		}
@@ -551,10 +560,13 @@ func c05Exec(ctx *core.Ctx, c c05Case) {
 // number, it must not acknowledge the chunk, must not report the message complete and must
 // not execute the octets that follow as commands.
 func c05Huge(ctx *core.Ctx, c c05Case) {
-	ctx.Eval(fmt.Sprintf("huge|%s|%v|%s|%s|%d", c.Huge, c.ExtraLast, c.Seg, c.Mode, c.LineLimit), true)
+	ctx.Eval(fmt.Sprintf("huge|%s|%v|%s|%s|%d|%d", c.Huge, c.ExtraLast, c.Seg, c.Mode, c.LineLimit, c.HugeAfter), true)
 	rig := newRig(c.Mode, func(s *smtp.Server) {
 		if c.LineLimit > 0 {
 			s.MaxMessageBytes = 1000
+		}
+		if c.HugeAfter > 0 {
+			s.MaxMessageBytes = 40
 		}
 	})
 	rig.BE.H.Data = func(sess int, r *rec.Reader, st smtp.StatusCollector) error {
@@ -572,6 +584,18 @@ func c05Huge(ctx *core.Ctx, c c05Case) {
 		rig.Finish()
 		ctx.Inconclusive("C05 huge preamble")
 		return
+	}
+	if c.HugeAfter > 0 {
+		p.SendStr(fmt.Sprintf("BDAT %d\r\n", c.HugeAfter))
+		p.SendStr(strings.Repeat("a", c.HugeAfter))
+		r, err := p.ReadReply()
+		head = append(head, r)
+		if err != nil || r.Code != 250 {
+			p.Close()
+			rig.Finish()
+			ctx.Inconclusive("C05 huge: first chunk not accepted")
+			return
+		}
 	}
 	cmd := "BDAT " + c.Huge
 	if c.ExtraLast {
@@ -604,7 +628,7 @@ func c05Huge(ctx *core.Ctx, c c05Case) {
 	judgeBait := len(c.Huge) < 19 || (len(c.Huge) == 19 && c.Huge <= "9223372036854775807")
 	for _, e := range ev {
 		if judgeBait && e.Ph == "b" && (e.Kind == "Mail" || e.Kind == "Rcpt") && strings.HasPrefix(e.A, "bait") {
-			fail("C05:payload-executed:huge-size", fmt.Sprintf("octets following a BDAT with declared size %s were executed as a command: %s(%q)", c.Huge, e.Kind, e.A))
+			fail(ctx.Prop+":payload-executed:huge-size", fmt.Sprintf("octets following a BDAT with declared size %s were executed as a command: %s(%q)", c.Huge, e.Kind, e.A))
 			return
 		}
 	}
@@ -613,13 +637,17 @@ func c05Huge(ctx *core.Ctx, c c05Case) {
 			break // replies to whatever follows an unparsable size are not judged
 		}
 		if r.Class() == 2 {
-			fail("C05:huge-size-acknowledged", fmt.Sprintf("a BDAT declaring %s octets, of which %d arrived, was answered %s", c.Huge, len(c.Msg), r))
+			fail(ctx.Prop+":huge-size-acknowledged", fmt.Sprintf("a BDAT declaring %s octets, of which %d arrived, was answered %s", c.Huge, len(c.Msg), r))
 			return
 		}
 	}
 	for _, d := range dataEnds(ev) {
+		if c.HugeAfter > 0 && len(d.A) > 40 {
+			fail(ctx.Prop+":huge-size-bypasses-limit", fmt.Sprintf("with MaxMessageBytes=40 the backend read %d octets: a chunk of %d octets followed by one declaring %s octets", len(d.A), c.HugeAfter, c.Huge))
+			return
+		}
 		if d.B == "EOF" || d.B == "" {
-			fail("C05:huge-size-complete", fmt.Sprintf("the backend's reader ended with %q after %d octets for a BDAT declaring %s octets", d.B, len(d.A), c.Huge))
+			fail(ctx.Prop+":huge-size-complete", fmt.Sprintf("the backend's reader ended with %q after %d octets for a BDAT declaring %s octets", d.B, len(d.A), c.Huge))
 			return
 		}
 	}
